@@ -10,12 +10,15 @@
  wire, an IN-PROCESS one (what the repository's own tests do) takes them from the response object.
  ***************************************************************************)
 EXTENDS Naturals, Sequences, FiniteSets, TLC, Json
-CONSTANTS KeyClasses, ValClasses, Levels, MaxMsgs, HostileKinds
+CONSTANTS KeyClasses, ValClasses, Levels, MaxMsgs, HostileKinds,
+          Faults      \* how the request that receives the messages ends: "none" | "handler" (its handler returns an error after reading
+                      \* them) | "double" (and the application's error handler fails too) -- the response expires the cookie all the same
 Msg == [key : KeyClasses, value : ValClasses, level : Levels, old : BOOLEAN]
 VARIABLES stage, client, pending, jar, seen, hostile,
           extra,    \* the client also holds an unrelated cookie, which it sends BEFORE the flash cookie
-          via       \* how the redirect was issued: To(url) | Route(name) | Route(name, with query parameters) | Back(fallback)
-vars == <<stage, client, pending, jar, seen, hostile, extra, via>>
+          via,      \* how the redirect was issued: To(url) | Route(name) | Route(name, with query parameters) | Back(fallback)
+          fault
+vars == <<stage, client, pending, jar, seen, hostile, extra, via, fault>>
 Vias == {"to", "route", "routequery", "back"}
 \* message sets: distinct keys per kind (With() replaces an equal key), old input carries no level
 OkMsg == {m \in Msg : m.old => m.level = 0}
@@ -23,6 +26,7 @@ MsgSets == {{a} : a \in OkMsg} \cup
            (IF MaxMsgs >= 2 THEN {S \in {{a, b} : a \in OkMsg, b \in OkMsg} : Cardinality(S) = 2 /\ \A x, y \in S : x # y => ~(x.key = y.key /\ x.old = y.old)} ELSE {})
 Init == /\ stage = "start" /\ client \in {"conforming", "transparent", "inprocess"} /\ pending = {} /\ jar = "empty"
         /\ seen = <<>> /\ hostile = "none" /\ extra \in BOOLEAN /\ via = "to"
+        /\ fault \in Faults /\ (fault # "none" => client # "conforming")      \* (the harness injects the fault on its own connections)
 
 \* the server answers a request with Redirect().With(...).WithInput().To(...): the response carries the flash cookie
 \* (whichever way the redirect is issued)
@@ -39,9 +43,9 @@ Hostile == /\ stage = "start" /\ \E k \in HostileKinds : hostile' = k
            /\ seen' = <<{}>> /\ stage' = "done" /\ UNCHANGED <<client, pending, jar, via>>
 \* and a request without any cookie sees nothing
 NoCookie == /\ stage = "start" /\ hostile' = "nocookie" /\ seen' = <<{}>> /\ stage' = "done" /\ UNCHANGED <<client, pending, jar, via>>
-Next == (RedirectWith \/ Follow \/ Again \/ Hostile \/ NoCookie) /\ UNCHANGED extra
+Next == (RedirectWith \/ Follow \/ Again \/ Hostile \/ NoCookie) /\ UNCHANGED <<extra, fault>>
 Spec == Init /\ [][Next]_vars
 
 DeliveredOnce == stage = "done" /\ pending # {} => Cardinality({i \in 1..Len(seen) : seen[i] = pending}) = 1
-Emit == stage = "done" => PrintT(<<"CASE", ToJson([client |-> client, pending |-> pending, hostile |-> hostile, seen |-> seen, extra |-> extra, via |-> via])>>)
+Emit == stage = "done" => PrintT(<<"CASE", ToJson([client |-> client, pending |-> pending, hostile |-> hostile, seen |-> seen, extra |-> extra, via |-> via, fault |-> fault])>>)
 =============================================================================
